@@ -99,6 +99,7 @@ type model struct {
 	execExpect      map[int]*execExpectation // stream id -> expectation
 
 	diagnostics map[string]bool
+	cur         *scheduler.VerifSnapshot
 }
 
 type execExpectation struct {
@@ -398,6 +399,7 @@ func (m *model) observe() {
 		m.diagnostics[d] = true
 	}
 
+	m.cur = snap
 	// --- learn tasks and operations from the snapshot.
 	present := map[string]bool{}
 	for _, vt := range snap.Tasks {
@@ -711,6 +713,26 @@ func (m *model) onStreamAttached(s *streamSim, name string, now time.Time) {
 	exp := m.execExpect[s.id]
 	e := s.exec
 	tpl := w.templates[e.Template]
+	if len(w.cfg.Routers) > 0 {
+		// Reference demultiplexing: longest registered router prefix with
+		// identical platform, else the default router.
+		want, bestLen := "r-default", -1
+		for i, r := range w.cfg.Routers {
+			if r.Platform == tpl.platform && isPrefix(r.Prefix, e.Instance) && len(r.Prefix) > bestLen {
+				want, bestLen = fmt.Sprintf("r%d", i), len(r.Prefix)
+			}
+		}
+		for _, vt := range m.cur.Tasks {
+			for _, o := range vt.Operations {
+				if o.Name == name {
+					if len(o.InvocationIDs) == 0 || o.InvocationIDs[0] != invocationKeyFor(want) {
+						w.failf("C05: Execute %s (instance %q, platform %d) must be handled by action router %s, but its operation is filed under invocation %v", e.ActionID, e.Instance, tpl.platform, want, shortPath(o.InvocationIDs))
+					}
+					m.label("demux_router_" + map[bool]string{true: "default", false: "registered"}[want == "r-default"])
+				}
+			}
+		}
+	}
 	if !exp.queueFound && exp.liveBefore == nil {
 		w.failf("C05: Execute %s (instance %q, platform %d) was accepted although no platform queue matches", e.ActionID, e.Instance, tpl.platform)
 	}
